@@ -9,6 +9,7 @@ use zkryptium::cl03::keys::{CL03CommitmentPublicKey, CL03PublicKey, CL03SecretKe
 use zkryptium::keys::pair::KeyPair;
 use zkryptium::schemes::generics::Signature;
 use zkryptium::utils::random::{rand_int, random_bits};
+use std::sync::Arc;
 use zksim_core::sim::{Cx, NodeId, StepOpts};
 
 fn check_element(cx: &mut Cx, what: &str, x: &Integer, n: &Integer, pq: Option<(&Integer, &Integer)>) {
@@ -77,6 +78,37 @@ pub fn run_c18(cx: &mut Cx) {
             if co.N.mod_u(4) != 1 { cx.violation("C18", "commitment-key-own/modulus-not-1-mod-4".into(), String::new()); }
             check_element(cx, "h(own)", &co.h, &co.N, None);
             for g in &co.g_bases { check_element(cx, "g_i(own)", g, &co.N, None); }
+        }
+        // signatures obtained through BLIND issuance under this key (commit, proof, blind_sign,
+        // unblind) survive their byte encoding like directly issued ones: v canonical, decoded
+        // signature equal and verifying
+        {
+            let km = Arc::new(KeyMat { idx: 0, pk: pk.clone(), sk: sk.clone(), bases: bases.clone(), cpk: cpk.clone(), bases2: bases.clone(), cpk2: cpk.clone(), tp_cpk: cpk.clone(), bases_wide: bases.clone(), cpk_wide: cpk.clone() });
+            let count = if cx.thorough { 30usize } else { 10 };
+            let seed = cx.run_seed;
+            let blind_node = cx.node("blind-issuance");
+            cx.step(blind_node, "blind-issue-and-encode", StepOpts::default(), move || {
+                use crate::sessions::*;
+                let mut bad: Vec<String> = Vec::new();
+                for j in 0..count {
+                    let msgs = vec![gen_attr(seed, 4000 + j as u64, 0).value];
+                    let hc = holder_commit_and_prove(&km, &msgs, &[0], false);
+                    let req = IssueRequest { pk: km.pk.clone(), bases: km.bases.0[..1].to_vec(), tp_cpk: None, c_value: hc.c_value.clone(), ct_value: None, zk_json: hc.zk_json.clone(), revealed: vec![], revealed_idx: vec![], hidden: vec![0] };
+                    let (_, Some(bs)) = issuer_handle(&km, &req) else { bad.push(format!("#{j}: the issuer refused an honest request")); continue; };
+                    let (ok, (e, s, v)) = match holder_unblind(&km, &bs, &hc, &msgs) { Ok(t) => t, Err(x) => { bad.push(format!("#{j}: unblind: {x}")); continue; } };
+                    if !ok { bad.push(format!("#{j}: the unblinded signature does not verify")); continue; }
+                    if v <= 0 || v >= km.pk.N { bad.push(format!("#{j}: v is not in (0, N): sign {:?}, {} bits", v.cmp0(), v.significant_bits())); }
+                    let sig = crate::scen_sig::sig_from_parts(&e, &s, &v).ok_or("construct")?;
+                    let back = Signature::<Sch>::from_bytes(&sig.to_bytes());
+                    if back != sig { bad.push(format!("#{j}: from_bytes(to_bytes(sig)) != sig")); }
+                    if !back.verify_multiattr(&km.pk, &Bases(km.bases.0[..1].to_vec()), &msgs_of(&msgs)) { bad.push(format!("#{j}: the decoded signature does not verify")); }
+                }
+                Ok::<_, String>(bad)
+            }, move |cx, st| {
+                cx.eval(&[b"blind-issued-bytes", &seed.to_le_bytes()], true);
+                cx.add("n.blind_issued_signatures_encoded", count as u64);
+                match st.out { Ok(Ok(bad)) if bad.is_empty() => cx.count("verdict.roundtrip.ok"), other => cx.violation("C18", "encoding/blind-issued-signature-bytes".into(), format!("{other:?}")) }
+            });
         }
         // encodings across a restart
         cx.restart(issuer);
@@ -149,6 +181,43 @@ pub fn run_c18(cx: &mut Cx) {
                 }
             });
         });
+    }
+    // ... and several roles of one process storing DIFFERENT key pairs into the same directory at
+    // the same time (a burst: real overlap inside write_keypair_to_file), each reading its own
+    // file back after every write
+    if POOL_SIZE >= 4 && cx.ch.chance("concurrent_key_writes", 1, 2) {
+        let nodes: Vec<NodeId> = (0..4).map(|i| cx.node(&format!("store{i}"))).collect();
+        let dir = std::env::temp_dir();
+        let tag = format!("{}-{}", std::process::id(), cx.run_index);
+        cx.count("probe.concurrent_key_file_writes");
+        let rounds = 25usize;
+        let steps: Vec<(NodeId, Box<dyn FnOnce() -> Vec<String> + Send>)> = nodes.iter().enumerate().map(|(i, &nd)| {
+            let k = pool_key(i as u64);
+            let path = dir.join(format!("zksim-keystore-burst-{tag}-{i}.json")).to_string_lossy().to_string();
+            let f: Box<dyn FnOnce() -> Vec<String> + Send> = Box::new(move || {
+                let mut bad = Vec::new();
+                let kp: KeyPair<Sch> = match serde_json::from_value(serde_json::json!({"public": k.pk, "private": k.sk})) { Ok(x) => x, Err(e) => return vec![format!("construct: {e}")] };
+                for r in 0..rounds {
+                    if std::panic::catch_unwind(std::panic::AssertUnwindSafe(|| kp.write_keypair_to_file(Some(path.clone())))).is_err() { bad.push(format!("round {r}: the write panicked")); continue; }
+                    match std::fs::read_to_string(&path).map_err(|e| e.to_string()).and_then(|t| serde_json::from_str::<KeyPair<Sch>>(&t).map_err(|e| e.to_string())) {
+                        Ok(back) if back.public_key() == &k.pk && back.private_key() == &k.sk => {}
+                        Ok(_) => bad.push(format!("round {r}: the file holds ANOTHER key pair")),
+                        Err(e) => bad.push(format!("round {r}: {e}")),
+                    }
+                }
+                let _ = std::fs::remove_file(&path);
+                bad
+            });
+            (nd, f)
+        }).collect();
+        cx.burst(steps, "write key files concurrently", move |cx, outs| {
+            for (i, st) in outs.into_iter().enumerate() {
+                cx.eval(&[b"key-file-burst", &[i as u8], tag.as_bytes()], true);
+                cx.count("fault.concurrent_calls");
+                match st.out { Ok(bad) if bad.is_empty() => cx.count("verdict.roundtrip.ok"), other => cx.violation("C18", "store/concurrent-writers-disturb-each-other".into(), format!("role {i} of 4 writing its own key file {rounds} times: {:?}", other.map(|b| b.into_iter().take(3).collect::<Vec<_>>()))) }
+            }
+        });
+        cx.run();
     }
     // public keys and commitment keys of the sizes of EVERY suite (moduli of 1026, 2050 and 3074
     // bits; plain primes, the JSON codec does not care) through the serde round trip
